@@ -235,6 +235,16 @@ impl Array {
             None
         } else {
             Some(Rc::new(move |c, t, x| {
+                // two vectors are multiplied as a dot product, so the delta scales the other vector
+                let is_dot = c[0].dimensions.len() < 2 && c[1].dimensions.len() < 2;
+                if is_dot && !a_transpose && !b_transpose {
+                    return vec![
+                        if t[0] { Some(x * &c[1]) } else { None },
+                        if t[1] { Some(x * &c[0]) } else { None },
+                        if t[2] { Some(x.clone()) } else { None },
+                    ];
+                }
+
                 vec![
                     if t[0] {
                         Some(if a_transpose {
